@@ -1037,3 +1037,28 @@ def param_deps(body, start):
                 if o[0] in ("c", "m"):
                     work.append(o[1][0])
     return params
+
+
+def resolve_const(body, op, depth=0):
+    """constant dict an operand evaluates to, following single-definition copies / borrows / derefs"""
+    if op is None or depth > 8:
+        return None
+    if op[0] == "k":
+        return body.kconst(op)
+    p = op[1]
+    defs = [d for d in body.defs_of_local(p[0]) if len(d[1][0]) == 1]
+    if len(defs) != 1:
+        return None
+    r = defs[0][1][1]
+    if r[0] == "use":
+        return resolve_const(body, r[1], depth + 1)
+    if r[0] == "ref":
+        return resolve_const(body, ["c", r[1]], depth + 1)
+    if r[0] == "cast":
+        return resolve_const(body, r[2], depth + 1)
+    return None
+
+
+def resolve_str(body, op):
+    k = resolve_const(body, op)
+    return k.get("s") if k else None
